@@ -113,6 +113,12 @@ CHECKS = {
             "All tree shapes of depth <= 2 and fan-out <= 2 with files and empty directories at every position, sizes {0,1,c-1,c,c+1,2c,2c+1}, chunk sizes {1,2,3,7,64000}, five filters, upload and download, single-file and directory roots.",
             "deterministic default schedule; filters see base names at every level; per-run temp directory removed at exit",
             "E1+E3", "DESIGN.md#c20"),
+    "C18": ("model_checking",
+            "explicit-state BFS over register/unregister/query/clock histories replayed on the real UDP registry main loop (simulated UDP layer, virtual clock) against a reference dict model and notification log; exhaustive malformed-datagram menu; TCP registry scenarios on simulated sockets under the scheduler",
+            "All histories to depth 5 (quick) / 7 (thorough) over 2 hosts x 2 ports x 2 alias sets, 4 query names and clock advances of T/2 and T+1, de-duplicated by (registrations with relative ages, log-implied membership); "
+            "every malformed datagram (grammar values in each field, all 1-byte and a grid of 2-byte strings, all truncations, odd command names) followed by a valid query; all arrival orders of silent / partial / garbage / well-behaved TCP clients.",
+            "expiry notifications are compared for consistency (pruning is lazy, at the next query); ties in refresh time in any order",
+            "E3+E4+E5", "DESIGN.md#c18"),
 }
 
 NOT_APPLICABLE = {}
